@@ -137,6 +137,19 @@ def block_catalogue(r, tier):
     add("second-coinbase", [coinbase(r), valid_tx(r), coinbase(r)])
     add("first-not-coinbase", [valid_tx(r), coinbase(r)])
     add("no-coinbase", [valid_tx(r), valid_tx(r)])
+    # the size rule at its boundary: a stripped size of exactly 1,000,000 bytes is allowed (weight exactly 4,000,000), one more is not
+    bigt = valid_tx(r, 1, 1)
+    cb_ = coinbase(r)
+
+    def sized(extra):
+        bigt2 = copy.deepcopy(bigt)
+        bigt2["vout"][0]["script"] = b"\x6a" + bytes(extra)
+        return [cb_, bigt2]
+    k_, probe = call(build_block, header(sized(900000)), sized(900000))
+    if k_ == "ret":
+        sz0 = len(probe.serialize(dict(include_witness=False)))
+        add("blocksize-1000000-ok", sized(900000 + 1000000 - sz0))
+        add("blocksize-1000001", sized(900000 + 1000001 - sz0))
     t = valid_tx(r)
     add("duplicate-tx", [coinbase(r), t, valid_tx(r), t])
     add("duplicate-tx-adjacent", [coinbase(r), t, t])
